@@ -50,7 +50,11 @@ def hand(F, base, row, inst_row, mef_fxns, is_integer_file):
             s = F.transform.to_rfi(s, ch)
         elif u == 'mef':
             s = F.transform.to_rfi(s, ch)
-            s = mef_fxns[row['Beads ID']](s, ch)
+            # the referenced beads' calibration of THIS channel, looked up by channel name in the bead row's fitting output
+            # (not through the generated function, whose channel bookkeeping is part of what is checked)
+            mo = mef_fxns[row['Beads ID']]
+            crv = mo.fitting['std_crv'][list(mo.mef_channels).index(ch)]
+            s = F.transform.to_mef(s, ch, [crv], [ch])
         else:
             raise ValueError('unexpected units in generator: %r' % u)
         rep.append(ch)
@@ -85,8 +89,15 @@ def run(ctx):
     for cid, rng in ctx.cases([('exp', i) for i in range(n)]):
         mon.cid = cid
         base = os.path.join(ctx.tmpdir, 'exp')
-        itab, btab, stab, info = excelgen.experiment(rng, base, n_beads=int(rng.integers(0, 3)) if cid[1] % 2 else 1,
-                                                     force_float_first=('D' if cid[1] % 4 == 0 else True) if cid[1] % 2 == 0 else False)   # single / double precision
+        if cid[1] % 4 == 1:
+            # one instrument, one calibrated bead row, integer cell files in ANOTHER column order than the beads file, MEF units
+            itab, btab, stab, info = excelgen.experiment(rng, base, n_inst=1, n_beads=1, n_samples=int(rng.integers(2, 4)), float_frac=0.0,
+                                                         permute_columns=1.0, units_pool=['MEF', 'mef', 'MEF', 'RFI', ' MEF '])
+        else:
+          itab, btab, stab, info = excelgen.experiment(rng, base, n_beads=int(rng.integers(0, 3)) if cid[1] % 2 else 1,
+                                                     force_float_first=('D' if cid[1] % 4 == 0 else True) if cid[1] % 2 == 0 else False,   # single / double precision
+                                                     permute_columns=0.9 if cid[1] % 2 else 0.2,   # cell files laid out unlike the beads file
+                                                     units_pool=excelgen.UNITS + (['MEF', 'mef'] if cid[1] % 2 else []))
         np.random.seed(int(rng.integers(1 << 30)))
         with warnings.catch_warnings():
             warnings.simplefilter('ignore')
@@ -103,7 +114,7 @@ def run(ctx):
             for sid, row in stab.iterrows():
                 with warnings.catch_warnings():
                     warnings.simplefilter('ignore')
-                    hands[sid] = core.attempt(hand, F, base, row, itab.loc[row['Instrument ID']], mef_fxns,
+                    hands[sid] = core.attempt(hand, F, base, row, itab.loc[row['Instrument ID']], mef_outputs,
                                               info['sample_specs'][sid]['datatype'] == 'I')
         with warnings.catch_warnings():
             warnings.simplefilter('ignore')
@@ -119,6 +130,9 @@ def run(ctx):
             desc = dict(sample=sid, units={c: row[c] for c in row.index if c.endswith(' Units') and not pd.isnull(row[c])},
                         fraction=row['Gate Fraction'], beads=row['Beads ID'], data=info['sample_specs'][sid]['datatype'])
             ctx.counters['chk:hand-composition'] += 1
+            if any(str(u).strip().lower() == 'mef' for u in desc['units'].values()) and row['Beads ID'] in beads_samples and \
+                    list(info['sample_specs'][sid]['names']) != list(beads_samples[row['Beads ID']].channels):
+                ctx.note('MEF rows on a cell file laid out unlike its beads file')
             if isinstance(got, Exception):
                 ctx.check(False, 'well-formed-row-reported-as-error', cid, error=str(got), **desc)
                 continue
@@ -127,7 +141,7 @@ def run(ctx):
             else:
                 with warnings.catch_warnings():
                     warnings.simplefilter('ignore')
-                    h = core.attempt(hand, F, base, row, itab.loc[row['Instrument ID']], mef_fxns,
+                    h = core.attempt(hand, F, base, row, itab.loc[row['Instrument ID']], mef_outputs,
                                               info['sample_specs'][sid]['datatype'] == 'I')
             if h.raised:
                 ctx.note('hand composition raised: ' + core.exc_str(h.exc)[:100])
